@@ -380,6 +380,10 @@ def cross_check_smt2(text, timeout_s=20):
             try:
                 o = subprocess.run(cmd, capture_output=True, text=True, timeout=timeout_s + 5)
                 txt = (o.stdout + o.stderr).strip()
+                if "--nl-cov" in cmd and "option parsing" in txt:
+                    # this cvc5 build has no libpoly: same query without the coverings option
+                    o = subprocess.run([c for c in cmd if c != "--nl-cov"], capture_output=True, text=True, timeout=timeout_s + 5)
+                    txt = (o.stdout + o.stderr).strip()
                 if "(error" in txt:
                     res[nm] = "error"
                 else:
